@@ -7,11 +7,18 @@ Tree encodings (JSON):
          | ["union", [ts]] | ["ilist"] | ["datum"]
   pv   : ["i", z] | ["b", hex] | ["s", hex] (ByteString) | ["l", [..]] (list) | ["il", [..]] (IndefiniteList)
          | ["d", [[k, v], ...]] | ["t", tag, v] (CBORTag) | ["o", id, [field types], [field values]] | ["r", v] (RawPlutusData)
+Typed cases: {"kind": "typed", "t": class description, "x": value, "ref": reference bytes of the content,
+  "pp": true       -> the classes of this case are declared under `from __future__ import annotations` in a fresh module,
+  "skip_ref": true -> from_cbor(ref) is not run (the value does not conform to the class: bytes in a Dict[..] field)}.
+A value the constructor refuses (long-bytes guard) reports the exception kind and, unless skip_ref, from_cbor(ref).
 """
 from _pre import *
 import hashlib
+import sys
+import types
 import typing
 from dataclasses import dataclass
+from dataclasses import fields as dataclasses_fields
 from typing import Dict, List, Union
 
 from cbor2 import CBORTag
@@ -126,6 +133,31 @@ _CLASSES = {}
 _NS = {'dataclass': dataclass, 'PlutusData': PlutusData, 'List': List, 'Dict': Dict, 'Union': Union,
        'ByteString': ByteString, 'IndefiniteList': IndefiniteList, 'Datum': Datum}
 SOURCES = []
+# Declaration mode of the classes of the current case.  None: annotations are evaluated objects (classes live in _NS
+# and are shared between cases).  Otherwise a fresh module created for ONE case whose class sources start with
+# `from __future__ import annotations`: dataclasses.Field.type is then the source string of the annotation until
+# ArrayCBORSerializable.from_primitive replaces it; typing.get_type_hints resolves the strings in the module's dict,
+# so the module is registered in sys.modules.  Fresh per case: from_primitive MUTATES Field.type, a class that has
+# been through from_cbor once is no longer in the postponed state.
+_PP = None
+_PP_COUNT = [0]
+PP_HEADER = 'from __future__ import annotations\n'
+
+
+def pp_begin():
+    global _PP
+    _PP_COUNT[0] += 1
+    m = types.ModuleType(f'c18_postponed_{_PP_COUNT[0]}')
+    m.__dict__.update(_NS)
+    sys.modules[m.__name__] = m
+    _PP = {'module': m, 'classes': {}}
+
+
+def pp_end():
+    global _PP
+    if _PP is not None:
+        sys.modules.pop(_PP['module'].__name__, None)
+    _PP = None
 
 
 def ty_key(t):
@@ -158,8 +190,9 @@ def ty_src(t):
 
 def get_class(t):
     key = ty_key(t)
-    if key in _CLASSES:
-        return _CLASSES[key]
+    cache = _CLASSES if _PP is None else _PP['classes']
+    if key in cache:
+        return cache[key]
     anns = [ty_src(ft) for ft in t[2]]      # creates the nested classes first (descriptions are trees)
     name = f'G{len(SOURCES)}_{t[1]}'
     # unsafe_hash=True: instances can be dict keys (Map Credential Integer, ...) whenever their field values are
@@ -168,10 +201,18 @@ def get_class(t):
     for i, a in enumerate(anns):
         lines.append(f'    f{i}: {a}')
     src = '\n'.join(lines) + '\n'
-    exec(src, _NS)                  # the generated dataclass is a real PlutusData subclass
+    if _PP is None:
+        exec(src, _NS)              # the generated dataclass is a real PlutusData subclass
+        cls = _NS[name]
+    else:
+        src = PP_HEADER + src
+        exec(compile(src, _PP['module'].__name__, 'exec'), _PP['module'].__dict__)
+        cls = _PP['module'].__dict__[name]
+        if t[2] and not all(isinstance(f.type, str) for f in dataclasses_fields(cls)):
+            raise RuntimeError('postponed annotations did not take effect')
     SOURCES.append(src)
-    _CLASSES[key] = _NS[name]
-    return _CLASSES[key]
+    cache[key] = cls
+    return cls
 
 
 def build(v):
@@ -202,6 +243,18 @@ def build(v):
 
 
 def typed_case(c):
+    if c.get('pp'):
+        pp_begin()
+    try:
+        return typed_case0(c)
+    finally:
+        pp_end()
+
+
+def typed_case0(c):
+    """Order of the routes: everything that does not call from_primitive first (construction, to_cbor, hash, redeemer,
+    to_dict, from_dict, from_json), then the two from_cbor routes -- from_primitive replaces string annotations by the
+    evaluated hints, and from_dict is sensitive to that (see pp_begin)."""
     t, ref = c['t'], bytes.fromhex(c['ref'])
     out = {}
     cls = get_class(t)
@@ -209,12 +262,17 @@ def typed_case(c):
     try:
         x = build(c['x'])
     except Exception as e:
-        return {'construct': '!' + err_kind(e)}
+        # the value is refused (long-bytes guard, unhashable key): the routes that need the object do not exist;
+        # decoding the reference bytes of its content needs the class only
+        out['construct'] = '!' + err_kind(e)
+        if not c.get('skip_ref'):
+            out['rt_ref'] = res(lambda: cls.from_cbor(ref).to_cbor())
+        return out
     out['construct'] = 'ok'
     out['enc'] = res(lambda: x.to_cbor())
-    if not out['enc'].startswith('!'):
+    enc_ok = not out['enc'].startswith('!')
+    if enc_ok:
         out['hash_ok'] = res(lambda: datum_hash(x).payload == blake(bytes.fromhex(out['enc'])) and x.hash() == datum_hash(x))
-        out['rt_self'] = res(lambda: cls.from_cbor(x.to_cbor()).to_cbor())
 
         def _red():
             # the same object as the data of a redeemer: to_primitive reaches it through the enclosing array
@@ -224,7 +282,6 @@ def typed_case(c):
         out['redeemer_ok'] = res(_red)
     else:
         out['hash_ok'] = out['rt_self'] = out['redeemer_ok'] = None
-    out['rt_ref'] = res(lambda: cls.from_cbor(ref).to_cbor())
     td = [None]
 
     def _todict():
@@ -236,6 +293,9 @@ def typed_case(c):
         out['json_rt'] = res(lambda: cls.from_json(x.to_json()).to_cbor())
     else:
         out['dict_rt'] = out['json_rt'] = None
+    if enc_ok:
+        out['rt_self'] = res(lambda: cls.from_cbor(x.to_cbor()).to_cbor())
+    out['rt_ref'] = None if c.get('skip_ref') else res(lambda: cls.from_cbor(ref).to_cbor())
     return out
 
 
